@@ -430,7 +430,7 @@ def register3(w):
                ensures=["self.selector == selector"] + VSTRUCT + [
                    "self.selector == self.selectorreal + self.selector[len(self.selectorreal):len(self.selectorreal) + 1] + self.selectorargs",
                    "implies('?' not in selector and '|' not in selector, self.selectorreal == selector and self.selectorargs == '')"],
-               props=["C01", "C05"])
+               props=["C01", "C03", "C05"])
 
 
 def register_ast(w):
